@@ -64,7 +64,8 @@ func (t *T) UnifyVariants() *T {
 			narrowedUntypedUnion = variantT.DeepCopy()
 		}
 
-		if !narrowedUntypedUnion.IsUnknownType() && isNarrowed {
+		// (both variants unknown: nothing to narrow to)
+		if narrowedUntypedUnion != nil && !narrowedUntypedUnion.IsUnknownType() && isNarrowed {
 			return narrowedUntypedUnion
 		}
 	}
